@@ -405,9 +405,13 @@ pub fn decimal_literal() -> impl Strategy<Value = B> {
 pub fn datum(allow_indefinite: bool) -> BoxedStrategy<Datum> {
     let payload = || {
         prop_oneof![
-            4 => proptest::collection::vec(any::<u8>(), 0..20),
-            2 => "[;,:\"'()#\\n a-z]{0,16}".prop_map(String::into_bytes),
-            1 => (prop_oneof![Just(9usize), Just(10), Just(99), Just(100), Just(101), Just(255), Just(300)], any::<u8>()).prop_map(|(n, a)| (0..n).map(|i| a.wrapping_add((i * 31) as u8)).collect()),
+            160 => proptest::collection::vec(any::<u8>(), 0..20),
+            80 => "[;,:\"'()#\\n\\r\\t a-z]{0,16}".prop_map(String::into_bytes),
+            // payloads ending in a white-space-like byte
+            20 => ("[a-z0-9]{0,6}", prop::sample::select(vec![b'\r', b'\n', b' ', b'\t', 0x0c, 0u8, b';', b',']), 1usize..3).prop_map(|(s, c, n)| { let mut v = s.into_bytes(); for _ in 0..n { v.push(c); } v }),
+            40 => (prop_oneof![Just(9usize), Just(10), Just(99), Just(100), Just(101), Just(255), Just(256), Just(257), Just(300)], any::<u8>()).prop_map(|(n, a)| (0..n).map(|i| a.wrapping_add((i * 31) as u8)).collect()),
+            // rarely a really long payload
+            1 => (prop_oneof![Just(999usize), Just(1000), Just(4096), Just(65536)], any::<u8>()).prop_map(|(n, a)| (0..n).map(|i| a.wrapping_add((i * 31) as u8)).collect()),
         ]
     };
     let mut v: Vec<(u32, BoxedStrategy<Datum>)> = vec![
@@ -462,14 +466,29 @@ pub fn datum(allow_indefinite: bool) -> BoxedStrategy<Datum> {
 /// indefinite block may only be the very last element of a message; `last`
 /// says whether this unit is the last one.
 pub fn unit_with(header: BoxedStrategy<Header>, max_data: usize, allow_indefinite: bool) -> BoxedStrategy<Unit> {
-    (header, proptest::collection::vec(datum(false), 0..=max_data), if allow_indefinite { prop_oneof![6 => Just(None), 1 => datum(true).prop_map(Some)].boxed() } else { Just(None).boxed() }, ws1(), ws0(), proptest::collection::vec((ws0(), ws0()), max_data + 1))
-        .prop_map(|(header, mut data, tail, ws_header, ws_nodata, ws_data)| {
+    // mostly 0..=max_data data elements; now and then a long parameter list
+    let data = prop_oneof![
+        480 => proptest::collection::vec(datum(false), 0..=max_data),
+        19 => proptest::collection::vec(datum(false), max_data + 3..=max_data * 4 + 4),
+        // counters that wrap at 256: a very long list of short elements
+        1 => (prop::sample::select(vec![255usize, 256, 257, 258, 300]), 0u8..3).prop_map(|(n, k)| (0..n).map(|i| match k {
+            0 => Datum::Dec { lit: B((i % 10).to_string().into_bytes()), suffix: None },
+            1 => Datum::Chr(B(b"X".to_vec())),
+            _ => Datum::Str { quote: b'\'', raw: B(vec![b'a' + (i % 26) as u8]) },
+        }).collect::<Vec<_>>()),
+    ];
+    (header, data, if allow_indefinite { prop_oneof![6 => Just(None), 1 => datum(true).prop_map(Some)].boxed() } else { Just(None).boxed() }, ws1(), ws0(), proptest::collection::vec((ws0(), ws0()), max_data * 4 + 6), any::<bool>())
+        .prop_map(|(header, mut data, tail, ws_header, ws_nodata, mut ws_data, _)| {
+
             if let Some(t) = tail {
                 if t.is_indefinite() {
                     data.push(t);
                 }
             }
             let n = data.len();
+            while ws_data.len() + 1 < n {
+                ws_data.push((B::default(), B::default()));
+            }
             Unit { header, ws_header: if n > 0 { ws_header } else { ws_nodata }, ws_data: ws_data.into_iter().take(n.saturating_sub(1)).collect(), data }
         })
         .boxed()
@@ -482,7 +501,8 @@ pub fn free_message(max_units: usize, max_data: usize, lead_ws: bool, indefinite
 
 /// A message whose unit headers come from `header`.
 pub fn message_with(header: BoxedStrategy<Header>, max_units: usize, max_data: usize, lead_ws: bool, indefinite: bool) -> BoxedStrategy<Msg> {
-    (1..=max_units)
+    // mostly 1..=max_units units; now and then a long message (N-th unit effects, counters)
+    prop_oneof![380 => (1..=max_units).boxed(), 19 => (max_units + 4..=max_units * 4 + 4).boxed(), 1 => prop::sample::select(vec![255usize, 256, 257, 258, 300]).boxed()]
         .prop_flat_map(move |n| {
             let mut units: Vec<BoxedStrategy<Unit>> = Vec::new();
             for i in 0..n {
